@@ -6,17 +6,9 @@ import vlib
 from vlib import Case
 
 
-def run(run, pid, gens, tier, seed, replay, rule, mode="asan", timeout_case=60, assumptions=()):
-    run.rule = rule
-    run.assumptions = list(assumptions)
-    proof_ok, r = vlib.proof_side(run, pid)
-    ok, msg = vlib.build_oracle()
-    run.oblige("extracted oracle builds", ok, msg)
-    exe, msg = vlib.build_driver(mode)
-    run.oblige("implementation + driver build from /repo working tree (%s, -D%s)" % (mode, vlib.GUARD), exe is not None, msg)
-    if exe is None or not ok:
-        run.violation("build failed", {"kind": "build", "operation": "build", "detail": msg}, found_input=False)
-        return
+def run_components(run, gens, tier, seed, replay, exe, timeout_case=60, label=""):
+    """command-by-command correspondence + property evaluation for the given generator modules;
+    returns (number of disagreeing cases, first disagreement)"""
     cases = []
     owner = {}
     if replay:
@@ -61,23 +53,42 @@ def run(run, pid, gens, tier, seed, replay, rule, mode="asan", timeout_case=60, 
                 print(" impl :", io["lines"][i][:400] if i < len(io["lines"]) else "<none>")
                 print(" model:", mo["lines"][i][:400] if i < len(mo["lines"]) else "<none>")
             print("status:", io["status"], io["err"][:4])
+        suppressed = False
         if fails:
+            nviol = len(run.violations)
             meta = {k2: v for k2, v in c.meta.items() if isinstance(v, (int, str, list, dict, float, bool))}
             run.violation(str(fails[0])[:400], {"kind": k, "operation": "property", "failures": [str(f)[:400] for f in fails[:10]],
                                                 "case": {"name": c.name, "cmds": c.cmds, "meta": meta},
                                                 "gen_index": c.meta.get("gen_index", 0),
                                                 "impl_status": io["status"], "impl_err": io["err"][:6]},
-                          found_input=True, classes=())
-        if dis:
+                          found_input=True,
+                          classes=tuple(owner[c.name].input_classes(c)) if hasattr(owner[c.name], "input_classes") else ())
+            suppressed = len(run.violations) == nviol   # matched a known finding: its lines disagree with the model by definition
+        if dis and not suppressed:
             ndis += 1
             if first_dis is None:
                 first_dis = (c, dis)
     for c in cases[:2] + cases[len(cases) // 2: len(cases) // 2 + 1] + cases[-1:]:
         run.sample({"case": c.name, "cmds": [x[:160] for x in c.cmds[:4]]})
-    run.extra["input_distribution"] = kinds
-    run.extra["correspondence_disagreements"] = ndis
-    run.oblige("correspondence: model and implementation agree on every command of every case", ndis == 0,
+    run.extra.setdefault("component_input_distribution", {}).update(kinds)
+    run.extra["component_correspondence_disagreements"] = run.extra.get("component_correspondence_disagreements", 0) + ndis
+    run.oblige("correspondence%s: model and implementation agree on every command of every case" % label, ndis == 0,
                "" if not first_dis else repr(first_dis[1][:3]))
+    return ndis, first_dis
+
+
+def run(run, pid, gens, tier, seed, replay, rule, mode="asan", timeout_case=60, assumptions=()):
+    run.rule = rule
+    run.assumptions = list(assumptions)
+    proof_ok, r = vlib.proof_side(run, pid)
+    ok, msg = vlib.build_oracle()
+    run.oblige("extracted oracle builds", ok, msg)
+    exe, msg = vlib.build_driver(mode)
+    run.oblige("implementation + driver build from /repo working tree (%s, -D%s)" % (mode, vlib.GUARD), exe is not None, msg)
+    if exe is None or not ok:
+        run.violation("build failed", {"kind": "build", "operation": "build", "detail": msg}, found_input=False)
+        return
+    ndis, first_dis = run_components(run, gens, tier, seed, replay, exe, timeout_case)
     if not proof_ok:
         run.violation("proof obligation of %s no longer checks" % pid,
                       {"kind": "proof", "operation": "coqc", "detail": run.extra.get("coq_failure", {})}, found_input=False)
